@@ -76,7 +76,7 @@ Definition rescale (d : dec) (new_scale : Z) : dec :=
 (* ---- fixed.rs, forward direction ---- *)
 Inductive fwd := FSome (d : dec) | FNone | FPanic.
 
-(* Decimal::from_i128_with_scale panics on any error *)
+(* Decimal::from_i128_with_scale panics on any error (no longer called by fixed.rs) *)
 Definition from_i128_with_scale (num scale : Z) : fwd :=
   match try_from_i128_with_scale num scale with Ok d => FSome d | Err _ => FPanic end.
 
@@ -88,7 +88,8 @@ Definition convert_by_change_the_scale (num scale : Z) : fwd :=
     let scale_diff := digits - TARGET_SCALE in
     if scale <? scale_diff then FNone
     else if 38 <? scale_diff then FPanic                 (* 10u128.pow overflow *)
-    else from_i128_with_scale (num / 10 ^ scale_diff) (scale - scale_diff).
+    else match try_from_i128_with_scale (num / 10 ^ scale_diff) (scale - scale_diff) with
+         | Ok d => FSome d | Err _ => FNone end.   (* try_from_i128_with_scale(..).ok() *)
 
 Definition unsigned_fixed_to_decimal (num decimals : Z) : fwd :=
   if MAX_REPR <? num then convert_by_change_the_scale num decimals
@@ -121,12 +122,12 @@ Definition signed_value_to_decimal (num : Z) : fwd := expect (signed_fixed_to_de
 (* ---- fixed.rs, backward direction ----
    Err 1 = "`value` is too big", Err 2 = "invalid scale", Err 3 = integer conversion failed,
    Err 0 = PANIC (see E_PANIC) *)
-(* The error value is built with format!("... value={value} ...") BEFORE it is returned.
+(* Before the repair the error value was built with format!("... value={value} ...") of the RESCALED value.
    Display for Decimal (str.rs to_str_internal) writes into 32-byte ArrayVec/ArrayString
    buffers: "0." followed by [scale] digits does not fit once scale >= 31 (and the zero padding
    itself overflows from scale 33), and arrayvec's push panics.  [rescale] can leave such a
    scale behind because it never checks the requested scale against MAX_SCALE.
-   A panic of the backward direction is encoded as [Err E_PANIC]. *)
+   A panic of the backward direction is encoded as [Err E_PANIC] (the model no longer produces it). *)
 Definition E_PANIC : Z := 0.
 Definition DISPLAY_PANIC_SCALE : Z := 31.
 
@@ -139,7 +140,7 @@ Definition rescale_to_mantissa (d : dec) (decimals : Z) : res Z :=
   if scale <? decimals then
     match (m <- i128_pow10 (decimals - scale) ;; smul 128 mant m) with
     | Some v => Ok v
-    | None => if DISPLAY_PANIC_SCALE <=? scale then Err E_PANIC else Err 1
+    | None => Err 1          (* the message formats the ORIGINAL value: no panic *)
     end
   else if scale =? decimals then Ok mant
   else Err 2.
